@@ -197,10 +197,13 @@ def run(prop, tier, seed, replay=None):
         # must carry exactly the ids of the values it is made of, in order (oracle only)
         import check_c15, topofam
         trng = random.Random(seed * 13 + 1010)
-        nt = 300 if tier == "quick" else 3000
+        nt = 300 if tier == "quick" else 2000
         nft = 0
         nd = 0
-        for _ in range(nt):
+        import gc
+        for it in range(nt):
+            if it % 100 == 99:
+                gc.freeze()      # the driver forces a collection after every operation: keep the recorded traces out of it
             tc = check_c15.gen(trng, tier)
             tc["md"] = True
             try:
